@@ -29,12 +29,17 @@ class MemSock:
 
 
 def make_if():
-    dif = data_if.DATAInterface.__new__(data_if.DATAInterface)
-    dif._hdr_ver = 0x00
-    dif.sock = MemSock()
-    dif.remote_addr = "127.0.0.1"
-    dif.remote_port = 5702
-    return dif
+    """the interface object as the REAL constructors build it (every attribute the methods read is the one they set), over an
+    in-memory socket"""
+    return make_real_if()
+
+
+def hdr_ver_of(dif):
+    """the header version the interface holds, under the attribute name of the unchanged code or whatever it is called now"""
+    if hasattr(dif, "_hdr_ver"):
+        return dif._hdr_ver
+    c = [k for k in vars(dif) if "hdr_ver" in k or k.strip("_") in ("ver", "version")]
+    return getattr(dif, c[0]) if len(c) == 1 else None
 
 
 class QueueSock(MemSock):
@@ -94,7 +99,7 @@ def handle_if(tok):
             else:
                 raise AssertionError("bad interface operation")
             i += 2
-        return "ok " + " ; ".join(out) + " | " + repr(dif._hdr_ver).replace(" ", "_")
+        return "ok " + " ; ".join(out) + " | " + repr(hdr_ver_of(dif)).replace(" ", "_")
     if verb == "trxdif.parses":
         out, i = [], 1
         while i < len(tok):
